@@ -14,7 +14,7 @@ import (
 	"unsafe"
 
 	"golang.org/x/tools/go/ssa"
-	)
+)
 
 // If the target program panics, the interpreter panics with this type.
 type targetPanic struct {
@@ -269,7 +269,7 @@ func (i *interpreter) slice(t types.Type, x, lo, hi, max value) value {
 	var sb []value
 	isString := false
 	switch x := x.(type) {
-	case string, *symstr, *fdstr:
+	case string, *symstr, *fdstr, *ropestr:
 		sb = i.strBytes(x)
 		Len = len(sb)
 		Cap = Len
@@ -368,7 +368,7 @@ func (i *interpreter) index(x, idx value) value {
 		}
 		kk := i.concInt(idx)
 		return x[kk]
-	case string, *symstr, *fdstr:
+	case string, *symstr, *fdstr, *ropestr:
 		return i.strIndex(x, idx)
 	}
 	panic(fmt.Sprintf("unexpected x type in Index: %T", x))
@@ -1132,7 +1132,7 @@ func callBuiltin(caller *frame, callpos token.Pos, fn *ssa.Builtin, args []value
 
 	case "len":
 		switch x := args[0].(type) {
-		case string, *symstr, *fdstr:
+		case string, *symstr, *fdstr, *ropestr:
 			return i.strLen(x)
 		case array:
 			return len(x)
@@ -1261,7 +1261,7 @@ func (i *interpreter) rangeIter(x value, t types.Type) iter {
 			return &gmapIter{m: x, pos: len(x.entries) - 1, rev: true}
 		}
 		return &gmapIter{m: x}
-	case string, *symstr, *fdstr:
+	case string, *symstr, *fdstr, *ropestr:
 		return &symstrIter{i: i, b: i.strBytes(x)}
 	}
 	panic(fmt.Sprintf("cannot range over %T", x))
@@ -1332,7 +1332,7 @@ func (i *interpreter) conv(t_dst, t_src types.Type, x value) value {
 	}
 	// strings with symbolic content
 	switch xs := x.(type) {
-	case *symstr, *fdstr:
+	case *symstr, *fdstr, *ropestr:
 		switch d := ut_dst.(type) {
 		case *types.Basic:
 			if d.Kind() == types.String {
@@ -1612,7 +1612,6 @@ func checkInterface(i *interpreter, itype *types.Interface, x iface) string {
 	}
 	return "" // ok
 }
-
 
 // copied from $GOROOT/src/runtime/minmax.go
 
